@@ -176,6 +176,19 @@ def check_schedule(ctx):
     # the dependency graph: the object that is topologically sorted
     R = be.env.get('__ret__')
     R0 = strip_wrappers(R) if R is not None else None
+    # other spellings of "these are the nodes / edges of the dependency graph": G.update(edges=E, nodes=M); nx.DiGraph(E) (edges only)
+    extra = []
+    for s_, c, pc, loops in be.calls:
+        if isinstance(c.func, ast.Attribute) and c.func.attr == 'update' and isinstance(c.func.value, ast.Name):
+            kw = {k.arg: k.value for k in c.keywords}
+            for key, meth in (('nodes', 'add_nodes_from'), ('edges', 'add_edges_from')):
+                if key in kw:
+                    extra.append((s_, ast.Call(func=ast.Attribute(value=c.func.value, attr=meth, ctx=ast.Load()), args=[kw[key]], keywords=[]), pc, loops))
+    for nm, v, st_ in be.assign_log:
+        if isinstance(v, ast.Call) and U(v.func).split('.')[-1] in ('DiGraph',) and len(v.args) == 1 and not v.keywords:
+            extra.append((st_, ast.Call(func=ast.Attribute(value=ast.Name(id=nm, ctx=ast.Load()), attr='add_edges_from', ctx=ast.Load()),
+                                        args=[v.args[0]], keywords=[]), [], []))
+    be.calls.extend(extra)
     graphs = sorted({U(c.func.value) for s_, c, pc, loops in be.calls if isinstance(c.func, ast.Attribute) and c.func.attr == 'add_edges_from'})
     if not graphs and R is not None:
         # no dependency graph at all: the two-sweep schedule  collect + distribute  over a rooted traversal D of the tree:
